@@ -4,6 +4,7 @@ import (
 	"bytes"
 	"fmt"
 	"io"
+	"time"
 	"math/big"
 	"reflect"
 	"sort"
@@ -504,10 +505,11 @@ func init() {
 		Real:        []string{"Serialization/Deserialization of every listed type in native/service/{cross_chain_manager/common, cross_chain_manager/btc, cross_chain_manager/consensus_vote, header_sync/common, governance/{node_manager, side_chain_manager, relayer_manager, neo3_state_manager, signature_manager}}, native/states.ContractInvokeParam, core/states.StorageItem (+GenRawStorageItem/GetValueFromRawStorageItem)", "core/ledger (real ledger with generated genesis behind ledger.DefLedger for the side-chain types)"},
 		Stub:        []string{"byte stream (simulated reader)", "contract storage (values are encoded/decoded directly; the cross-replica re-encoding of persisted values belongs to E1)"},
 		Assumptions: []string{"Go's map iteration order cannot be seeded; it is sampled: an encoder that depends on it yields differing bytes among 128 encodings of 16 independently built maps with probability > 1-2^-30 for maps of >= 3 entries, so a violation of this kind replays with that probability rather than exactly", "counts in (2^16, 2^46) that reach an unguarded make() are not executed (process abort); counted as dangerous_count_not_executed", "a truncated encoding is 'malformed' except where an older format legitimately ends there (SideChain/RegisterSideChainParam without ExtraInfo)"},
-		QuickRuns:   2400, ThoroughRuns: 150000, QuickCap: 60, ThoroughCap: 800,
+		QuickRuns:   1500, ThoroughRuns: 120000, QuickCap: 60, ThoroughCap: 800,
 		RequiredProbes: []string{"map_order_checked_3plus_entries", "ledger_backed_encoding", "extrainfo_gated_by_fork_height", "legacy_cut_accepted", "huge_count_injected", "storage_item_raw_roundtrip", "type_nm.PeerPoolMap", "type_nm.ConsensusSigns", "type_vote.VoteInfo", "type_sigm.SigInfo", "type_btc.MultiSignInfo", "type_scm.SideChain", "type_scm.RegisterSideChainParam", "type_scm.FeeInfo", "type_scm.RegisterAssetParam", "type_ccm.ToMerkleValue", "type_hs.SyncBlockHeaderParam", "type_neo3.StateValidatorListParam", "type_rm.RelayerListParam"},
 		Generate:       genC04,
 		Execute:        execC04,
+		NoMinimise:     noMin,
 	})
 }
 
@@ -547,6 +549,8 @@ func (c *c04ctx) needLedger() {
 	if c.world != nil {
 		return
 	}
+	t0 := time.Now()
+	defer func() { globalTimer.add("ledger_open", t0) }()
 	net := uint32(c.run.Plan.C("net", 3))
 	w, err := chain.NewWorld(c.run, 4, net, 10)
 	if err != nil {
@@ -648,6 +652,7 @@ func execC04(run *kernel.Run) {
 			continue
 		}
 		run.Steps++
+		t0 := time.Now()
 		salt := uint64(st.Arg(0))
 		rng := kernel.NewRNG(kernel.Derive(run.Plan.Seed, "c04", salt))
 		t := recTypes[amod(st.Arg(1), len(recTypes))]
@@ -837,6 +842,7 @@ func execC04(run *kernel.Run) {
 				c.decodeDamaged(t, fmt.Sprintf("garbage#%d", j), d)
 			}
 		}
+		globalTimer.add(c04ModeNames[mode], t0)
 		out := fmt.Sprintf("%s bytes=%d mode=%s evals=%d rejected=%d accepted=%d", t.name, len(enc), c04ModeNames[mode], c.evals-ev0, c.rej-rej0, c.acc-acc0)
 		run.Logf("step %d %s", i, out)
 		run.State([]byte(out))
@@ -850,4 +856,5 @@ func execC04(run *kernel.Run) {
 	}
 	run.Probes["__evals"] = c.evals
 	run.Sample = sample
+	globalTimer.report("C04")
 }
